@@ -561,7 +561,25 @@ def insitu_run(tdgl, a, tmp):
     from . import devices
 
     work = tempfile.mkdtemp(prefix="insitu", dir=tmp)
-    dev = devices.make(tdgl, a.get("dev", "bar"), mel=a.get("mel", 0.8), gamma=a.get("gamma", 10.0))
+    # The oracle's physical parameters are the values ASKED FOR through the public constructors, never attributes read back
+    # from the objects under test: gamma, u (documented default 5.79 when not passed), xi = 1, epsilon.
+    base = devices.make(tdgl, a.get("dev", "bar"), mel=a.get("mel", 0.8))
+    REQ_GAMMA = float(a.get("gamma", 10.0))
+    REQ_U = float(a["u"]) if a.get("u") is not None else 5.79
+    lkw = dict(coherence_length=1.0, london_lambda=2.0, thickness=0.1, gamma=a.get("gamma", 10.0))
+    if a.get("u") is not None:
+        lkw["u"] = a["u"]
+    dev = tdgl.Device(base.name, layer=tdgl.Layer(**lkw), film=base.film, holes=base.holes, terminals=list(base.terminals),
+                      probe_points=base.probe_points, length_units=base.length_units)
+    dev.mesh = base.mesh
+    REQ_SITES = 1.0 * np.asarray(base.mesh.sites)            # positions in length units: xi (asked for: 1.0) times the mesh sites
+
+    def requested_epsilon(time):
+        if a.get("epsilon_ramp"):
+            T = a["epsilon_ramp"]
+            return np.array([1.0 - 0.6 * min(1.0, time / T) * float(np.exp(-((r[0] - 0.5) ** 2 + r[1] ** 2))) for r in REQ_SITES])
+        return float(a["epsilon"] if a.get("epsilon") is not None else 1.0) * np.ones(len(REQ_SITES))
+
     orig_update, orig_sps = TDGLSolver.update, TDGLSolver.solve_for_psi_squared
     attempts = []
     records = []
@@ -570,8 +588,8 @@ def insitu_run(tdgl, a, tmp):
     def w_sps(*args, **kw):
         res = orig_sps(*args, **kw)
         psi = np.array(kw["psi"])
-        rec = dict(psi=psi, mu=np.array(kw["mu"], dtype=float) * np.ones(len(psi)), eps=np.array(kw["epsilon"], dtype=float) * np.ones(len(psi)),
-                   gamma=float(kw["gamma"]), u=float(kw["u"]), dt=float(kw["dt"]), action=np.array(kw["psi_laplacian"] @ psi),
+        rec = dict(psi=psi, mu=np.array(kw["mu"], dtype=float) * np.ones(len(psi)), eps=None,
+                   gamma=REQ_GAMMA, u=REQ_U, dt=float(kw["dt"]), action=np.array(kw["psi_laplacian"] @ psi),
                    res=None if res is None else (np.array(res[0]), np.array(res[1])))
         attempts.append(rec)
         return res
@@ -581,8 +599,11 @@ def insitu_run(tdgl, a, tmp):
         attempts.clear()
         res = orig_update(self, state, running_state, dt, **kw)
         last = [r for r in attempts if r["res"] is not None][-1]
+        eps_req = requested_epsilon(float(state["time"]))
+        for r in attempts:
+            r["eps"] = eps_req
         records.append(dict(phase=phase["label"], step=int(state["step"]), time=float(state["time"]), psi_n=psi_n, mu_n=mu_n,
-                            eps=np.array(self.epsilon, dtype=float) * np.ones(len(psi_n)), gamma=float(self.gamma), u=float(self.u), dt=float(res.dt),
+                            eps=eps_req, gamma=REQ_GAMMA, u=REQ_U, dt=float(res.dt),
                             action=np.array(self.operators.psi_laplacian @ psi_n), p=np.array(res.psi), s=last["res"][1],
                             n_attempts=len(attempts), refused=[r for r in attempts if r["res"] is None], last=last,
                             first=[r for r in attempts if r["res"] is not None][0],
@@ -671,5 +692,5 @@ def insitu_run(tdgl, a, tmp):
             ev, _ = _site_obs(R["psi"], R["mu"], R["eps"], R["gamma"], R["u"], R["dt"], R["action"], None, None, True)
             traces.append(dict(refused=True, ev=ev, family="insitu-refused", level="attempt", label=label, retried=True, iterations=r["iterations"],
                                mu_max=float(np.abs(R["mu"]).max()), worst=0, params=dict(run=a["label"], dt=R["dt"])))
-    return dict(run=a["label"], traces=traces, n_updates=len(records), n_retried=sum(1 for r in records if r["refused"]),
+    return dict(run=a["label"], requested_gamma=REQ_GAMMA, requested_u=REQ_U, u_passed=a.get("u") is not None, traces=traces, n_updates=len(records), n_retried=sum(1 for r in records if r["refused"]),
                 phases=sorted(first_of_phase), max_iterations=max((r["iterations"] for r in records), default=0))
